@@ -27,7 +27,7 @@ import (
 func TestMain(m *testing.M) { vt.Main(m) }
 
 type Step struct {
-	Kind   string `json:"kind"` // note detached finish after duppair resupd sreq sreqcancel cutreuse lateget
+	Kind   string `json:"kind"` // note detached finish after duppair resupd sreq sreqcancel cutreuse lateget quietcut
 	S      int    `json:"s"`
 	R      int    `json:"r"`
 	T      int    `json:"t,omitempty"` // resupd: the session whose subscribed resource is reported as updated
@@ -63,7 +63,7 @@ func genScript(rt *rapid.T, race bool) Script {
 	}
 	n := rapid.IntRange(1, 40).Draw(rt, "n")
 	for i := 0; i < n; i++ {
-		st := Step{Kind: rapid.SampledFrom([]string{"note", "note", "note", "detached", "finish", "after", "duppair", "resupd", "sreq", "sreq", "sreqcancel", "cutreuse", "lateget"}).Draw(rt, "kind")}
+		st := Step{Kind: rapid.SampledFrom([]string{"note", "note", "note", "detached", "finish", "after", "duppair", "resupd", "sreq", "sreq", "sreqcancel", "cutreuse", "lateget", "quietcut"}).Draw(rt, "kind")}
 		st.S = rapid.IntRange(0, s.Sessions-1).Draw(rt, "s")
 		st.R = rapid.IntRange(0, s.Calls[st.S]-1).Draw(rt, "r")
 		if st.Kind == "resupd" {
@@ -606,6 +606,26 @@ func runInBubble(s Script) (res vt.Result) {
 			standalone[st.S] = do("GET", "", sessionIDs[st.S])
 			desc.WriteString("G")
 			res.Class("standalone_stream_opened_late")
+			settle()
+			check(i)
+			if len(res.Violations) > 0 {
+				break
+			}
+			continue
+		}
+		if st.Kind == "quietcut" {
+			// The client of a call that is still being handled is gone, but the server only learns of it when
+			// its next write to that exchange fails (memhttp.CutQuietly). Whatever the handler sends from now on
+			// is owed to nobody on that exchange - and must not turn up on anybody else's.
+			c := byKey[[2]int{st.S, st.R}]
+			if c.finished || c.cut || c.ex == nil || c.ex.Status() >= 400 || c.ex.HandlerDone() {
+				continue
+			}
+			c.cut = true
+			c.ex.CutQuietly(memhttp.ErrCut)
+			chanOf(c.tag) <- cmd{kind: "note"}
+			desc.WriteString("Q")
+			res.Class("client_gone_unnoticed_until_a_write_fails")
 			settle()
 			check(i)
 			if len(res.Violations) > 0 {
